@@ -1,6 +1,7 @@
 (* C02 - proofs: the model's partial operations never fire, loops end within
    a fuel linear in the input, allocations are bounded. *)
 From V Require Import Lib.Base Lib.Cbor Lib.CborParse Lib.CborProofs C02.Model.
+From V Require Lib.CborFuel Lib.CborSpan.
 Local Open Scope N_scope.
 
 (* ---- basics ---- *)
@@ -431,55 +432,333 @@ Proof.
   unfold st_of, steps_of in *. cbn [fst snd] in *. split; [exact B4|]. lia.
 Qed.
 
-(* ---- the shared loop of the extract*Offsets walkers ---- *)
-Lemma stream_ops_bounds data : forall oks pos pos', oks <> [] -> (pos <= length data)%nat ->
-  stream_ops oks data pos = Some pos' -> (pos < pos' <= length data)%nat.
+(* ================================================================== *)
+(* the offset walkers (current tree): cborSkipTags, cborArrayHeaderSizeOf,
+   the shared loop, extractDatum/Script/Redeemer{Array,Map}/WitnessComponent/
+   Output/Metadata offsets, ExtractTransactionOffsets / DecodeWithOffsets *)
+Lemma sd_val_bounds {V} (f : item -> option V) data pos v n :
+  sd_val f data pos = Some (v, n) -> (1 <= n /\ pos + n <= length data)%nat.
 Proof.
-  induction oks as [|o r IH]; intros pos pos' Hne Hp; [congruence|].
-  cbn [stream_ops]. destruct (sd_next o data pos) as [[it n]|] eqn:E; [|discriminate].
-  apply sd_next_bounds in E. destruct r as [|o2 r2].
-  - cbn [stream_ops]. intros [= <-]. lia.
-  - intros H. apply IH in H; [lia|discriminate|lia].
+  unfold sd_val. destruct (parse_full (skipn pos data)) as [j rest| |] eqn:E; try discriminate.
+  destruct (f j); [|discriminate]. intros [= _ <-].
+  apply parse_consumes in E. rewrite skipn_length in *. lia.
 Qed.
 
-Lemma walk_items_spec oks data hs indef count : oks <> [] -> (hs <= length data)%nat ->
-  forall fuel pos i, (hs + pos <= length data)%nat -> (length data - (hs + pos) < fuel)%nat ->
-  bad (walk_items fuel oks data hs indef count pos i) = false /\
-  forall k, walk_items fuel oks data hs indef count pos i = Val k -> (k <= i + (length data - (hs + pos)))%nat.
+Lemma all_bytes_skipn (l : bytes) n : all_bytes l -> all_bytes (skipn n l).
+Proof. unfold all_bytes. intros H. rewrite <- (firstn_skipn n l) in H. apply Forall_app in H. tauto. Qed.
+Lemma all_bytes_firstn (l : bytes) n : all_bytes l -> all_bytes (firstn n l).
+Proof. unfold all_bytes. intros H. rewrite <- (firstn_skipn n l) in H. apply Forall_app in H. tauto. Qed.
+
+Lemma array_header_size_of_val data len : exists h, array_header_size_of data len = Val h.
 Proof.
-  intros Hne Hhs. induction fuel as [|f IH]; intros pos i Hp Hf; [lia|].
-  cbn [walk_items].
-  destruct (negb (indef || (N.of_nat i <? count))); [split; [reflexivity|intros k [= <-]; lia]|].
-  assert (BODY : bad (match stream_ops oks (skipn hs data) pos with
-                      | None => Val i | Some pos' => walk_items f oks data hs indef count pos' (S i) end) = false /\
-                 forall k, match stream_ops oks (skipn hs data) pos with
-                      | None => Val i | Some pos' => walk_items f oks data hs indef count pos' (S i) end = Val k ->
-                   (k <= i + (length data - (hs + pos)))%nat).
-  { destruct (stream_ops oks (skipn hs data) pos) as [pos'|] eqn:E; [|split; [reflexivity|intros k [= <-]; lia]].
-    apply stream_ops_bounds in E; [|exact Hne|rewrite skipn_length; lia]. rewrite skipn_length in E.
-    destruct (IH pos' (S i)) as [B R]; [lia|lia|]. split; [exact B|]. intros k Hk. specialize (R k Hk). lia. }
-  destruct indef.
-  - destruct (Nat.leb_spec (length data) (hs + pos)) as [L|L]; cbn [bind]; [split; [reflexivity|intros k [= <-]; lia]|].
-    destruct (idx_lt data (hs + pos) L) as (b & ->). cbn [bind]. destruct (b =? 255); [split; [reflexivity|intros k [= <-]; lia]|exact BODY].
-  - cbn [bind]. exact BODY.
+  unfold array_header_size_of, array_info. destruct (info_spec 128 data) as (c & h & ind & -> & _). cbn [bind].
+  destruct (Nat.ltb 0 h); eauto.
 Qed.
 
-Lemma walker_spec major oks data fuel : oks <> [] -> (length data < fuel)%nat ->
-  bad (walker major oks fuel data) = false /\ forall k, walker major oks fuel data = Val k -> (k <= length data)%nat.
+(* cborSkipTags: ends within len(data) iterations, returns a suffix *)
+Lemma tag_size_cases ai : tag_size ai = 0%nat \/ (1 <= tag_size ai)%nat.
+Proof. unfold tag_size. brk; lia. Qed.
+
+Lemma skip_tags_spec : forall fuel data skipped steps, (length data < fuel)%nat ->
+  exists d ts k, skip_tags fuel data skipped steps = Val (d, ts, k) /\
+    (all_bytes data -> all_bytes d) /\ (steps <= k)%nat /\ (k - steps + length d <= length data)%nat.
 Proof.
-  intros Hne Hf. unfold walker. destruct (info_spec major data) as (c & h & ind & -> & Hh). cbn [bind].
-  destruct (info_invalid (c, h, ind)) eqn:Ei; [split; [reflexivity|intros k [= <-]; lia]|].
+  induction fuel as [|f IH]; intros data skipped steps Hf; [lia|].
+  cbn [skip_tags].
+  assert (STOP : exists d ts k, Val (data, skipped, steps) = Val (d, ts, k) /\
+                   (all_bytes data -> all_bytes d) /\ (steps <= k)%nat /\ (k - steps + length d <= length data)%nat).
+  { exists data, skipped, steps. split; [reflexivity|]. split; [auto|lia]. }
+  destruct (Nat.ltb_spec 0 (length data)) as [L|L]; [|exact STOP].
+  destruct (idx_lt data 0 L) as (b0 & ->). cbn [bind].
+  destruct (N.land b0 224 =? 192); [|exact STOP].
+  destruct (tag_size_cases (N.land b0 31)) as [Z|P].
+  { rewrite Z. cbn [Nat.eqb]. exact STOP. }
+  destruct (Nat.eqb_spec (tag_size (N.land b0 31)) 0); [lia|].
+  destruct (Nat.ltb_spec (length data) (tag_size (N.land b0 31))) as [S1|S1]; [exact STOP|].
+  rewrite slice_from_ok by lia. cbn [bind].
+  destruct (IH (skipn (tag_size (N.land b0 31)) data) (u32 (skipped + N.of_nat (tag_size (N.land b0 31)))) (S steps))
+    as (d & ts & k & E & Hd & Hk & Hl).
+  { rewrite skipn_length. lia. }
+  exists d, ts, k. split; [exact E|]. rewrite skipn_length in Hl. split.
+  - intros Hb. apply Hd. apply all_bytes_skipn. exact Hb.
+  - lia.
+Qed.
+
+Definition isval {A} (r : out A) : bool := match r with Val _ => true | _ => false end.
+Lemma isval_bad {A} (r : out A) : isval r = true -> bad r = false.
+Proof. destruct r; cbn; congruence. Qed.
+
+(* ---- the shared loop ---- *)
+(* what one BODY at decoder position pos must guarantee (L' = length of the decoder's data,
+   c = cost factor of nested loops, AB = the assumption under which costs are bounded) *)
+Definition good_step {E} (AB : Prop) (L' c pos : nat) (r : out (sres E)) : Prop :=
+  isval r = true /\
+  forall x, r = Val x ->
+    match x with
+    | SNext _ pos' t => (pos < pos' <= L')%nat /\ (AB -> (t <= c * (pos' - pos))%nat)
+    | SStop _ t | SAbort t => AB -> (t <= c * (L' - pos))%nat
+    end.
+
+Section wloop_spec.
+  Variable E : Type.
+  Variable step : nat -> out (sres E).
+  Variable AB : Prop.
+  Variable data : bytes.
+  Variable hs c : nat.
+  Let L' := (length data - hs)%nat.
+  Hypothesis Hhs : (hs <= length data)%nat.
+  Hypothesis step_good : forall pos, (pos <= L')%nat -> good_step AB L' c pos (step pos).
+
+  Lemma wloop_spec : forall fuel indef count pos i acc ticks, (pos <= L')%nat -> (L' - pos < fuel)%nat ->
+    isval (wloop step fuel data hs indef count pos i acc ticks) = true /\
+    (AB -> forall acc' t', wloop step fuel data hs indef count pos i acc ticks = Val (acc', t') ->
+       (t' <= ticks + (c + 1) * (L' - pos) + 1)%nat).
+  Proof.
+    induction fuel as [|f IH]; intros indef count pos i acc ticks Hp Hf; [lia|].
+    cbn [wloop].
+    assert (FIN : isval (Val (acc, ticks) : out (list E * nat)) = true /\
+                  (AB -> forall acc' t', Val (acc, ticks) = Val (acc', t') -> (t' <= ticks + (c + 1) * (L' - pos) + 1)%nat)).
+    { split; [reflexivity|]. intros _ acc' t' [= _ <-]. nia. }
+    destruct (negb (indef || (N.of_nat i <? count))); [exact FIN|].
+    assert (BODY : isval (r <- step pos ;;
+                        match r with
+                        | SNext es pos' t => wloop step f data hs indef count pos' (S i) (acc ++ es) (S (ticks + t))
+                        | SStop es t => Val (acc ++ es, S (ticks + t))
+                        | SAbort t => Val (acc, S (ticks + t))
+                        end) = true /\
+                   (AB -> forall acc' t', (r <- step pos ;;
+                        match r with
+                        | SNext es pos' t => wloop step f data hs indef count pos' (S i) (acc ++ es) (S (ticks + t))
+                        | SStop es t => Val (acc ++ es, S (ticks + t))
+                        | SAbort t => Val (acc, S (ticks + t))
+                        end) = Val (acc', t') -> (t' <= ticks + (c + 1) * (L' - pos) + 1)%nat)).
+    { destruct (step_good pos Hp) as [B G].
+      destruct (step pos) as [r| | |]; cbn [bind]; try discriminate; try (split; [reflexivity|intros; discriminate]).
+      specialize (G r eq_refl). destruct r as [es pos' t|es t|t].
+      - destruct G as [Hpp Ht]. destruct (IH indef count pos' (S i) (acc ++ es) (S (ticks + t))) as [B2 T2]; [lia|lia|].
+        split; [exact B2|]. intros Hab acc' t' Ew. specialize (T2 Hab acc' t' Ew). specialize (Ht Hab).
+        assert (EQ : (L' - pos = (pos' - pos) + (L' - pos'))%nat) by lia. rewrite EQ. nia.
+      - split; [reflexivity|]. intros Hab acc' t' [= _ <-]. specialize (G Hab). nia.
+      - split; [reflexivity|]. intros Hab acc' t' [= _ <-]. specialize (G Hab). nia. }
+    destruct indef.
+    - destruct (Nat.leb_spec (length data) (hs + pos)) as [Lq|Lq]; cbn [bind]; [exact FIN|].
+      destruct (idx_lt data (hs + pos) Lq) as (b & ->). cbn [bind]. destruct (b =? 255); [exact FIN|exact BODY].
+    - cbn [bind]. exact BODY.
+  Qed.
+End wloop_spec.
+
+Lemma wrun_spec {E} (AB : Prop) major fuel data (step : nat -> nat -> out (sres E)) c : (length data < fuel)%nat ->
+  (forall hs pos, (1 <= hs <= length data)%nat -> (pos <= length data - hs)%nat ->
+     good_step AB (length data - hs) c pos (step hs pos)) ->
+  isval (wrun major fuel data step) = true /\
+  (AB -> forall es t, wrun major fuel data step = Val (es, t) -> (t <= (c + 1) * length data)%nat).
+Proof.
+  intros Hf Hg. unfold wrun. destruct (info_spec major data) as (cnt & h & ind & -> & Hh). cbn [bind].
+  destruct (info_invalid (cnt, h, ind)) eqn:Ei.
+  { split; [reflexivity|]. intros _ es t [= _ <-]. lia. }
   specialize (Hh eq_refl). rewrite slice_from_ok by lia. cbn [bind].
-  destruct (walk_items_spec oks data h ind (match c with Some c0 => c0 | None => 0 end) Hne) with (fuel := fuel) (pos := 0%nat) (i := 0%nat) as [B R]; try lia.
-  split; [exact B|]. intros k Hk. specialize (R k Hk). lia.
+  destruct (wloop_spec E (step h) AB data h c) with (fuel := fuel) (indef := ind) (count := count_of cnt)
+    (pos := 0%nat) (i := 0%nat) (acc := @nil E) (ticks := 0%nat) as [B T]; try lia.
+  { intros pos Hp. apply Hg; lia. }
+  split; [exact B|]. intros Hab es t Ew. specialize (T Hab es t Ew). nia.
 Qed.
 
-Lemma redeemer_inner_no_bad v : bad (redeemer_inner v) = false.
+(* ---- facts taken from the Lib parser about decoded lists ---- *)
+Lemma wf_arr_forall f xs : wf (Arr f xs) -> Forall wf xs.
 Proof.
-  unfold redeemer_inner, array_info. destruct (info_spec 128 v) as (c & h & ind & -> & _). cbn [bind].
-  destruct (Nat.leb_spec (length v) h); [reflexivity|]. rewrite slice_from_ok by lia. reflexivity.
+  cbn [wf]. intros [_ H]. induction xs as [|x r IH]; [constructor|]. destruct H as [Hx Hr]. constructor; auto.
 Qed.
 
+Lemma sum_ge_count (xs : list item) : (length xs <= list_sum (map (fun x => length (enc x)) xs))%nat.
+Proof. induction xs as [|x r IH]; cbn [length map list_sum fold_right]; [lia|]. pose proof (CborFuel.enc_len_pos x). unfold list_sum in IH. lia. Qed.
+
+Lemma items_of_sound : forall i xs, wf i -> items_of i = Some xs ->
+  Forall wf xs /\ (list_sum (map (fun x => length (enc x)) xs) <= length (enc i))%nat.
+Proof.
+  unfold items_of.
+  induction i as [f n|f n|f bs|cs|f bs|cs|f xs'|f kvs|f t x IH|f v|f v]; intros xs Hw; cbn [strip_tags]; try discriminate.
+  - intros [= <-]. split; [eapply wf_arr_forall; eauto|]. rewrite CborSpan.enc_length_arr, CborSpan.flat_map_length_sum. lia.
+  - intros H. destruct Hw as [_ Hx]. destruct (IH xs Hx H) as [A B]. split; [exact A|].
+    cbn [enc]. rewrite app_length. lia.
+  - destruct (is_nil v); [|discriminate]. intros [= <-]. split; [constructor|cbn; lia].
+Qed.
+
+Lemma sd_items_sound data pos xs n : all_bytes data -> sd_items data pos = Some (xs, n) ->
+  Forall wf xs /\ (list_sum (map (fun x => length (enc x)) xs) <= n)%nat /\ (pos + n <= length data)%nat.
+Proof.
+  intros Hb E. pose proof (sd_val_bounds _ _ _ _ _ E) as [_ Hn]. unfold sd_items, sd_val in E.
+  destruct (parse_full (skipn pos data)) as [i rest| |] eqn:P; try discriminate.
+  destruct (items_of i) as [ys|] eqn:I; [|discriminate]. injection E as <- <-.
+  apply parse_full_sound in P; [|apply all_bytes_skipn; exact Hb]. destruct P as [Eq Hw].
+  destruct (items_of_sound i ys Hw I) as [A B]. split; [exact A|]. split; [|exact Hn].
+  rewrite Eq, app_length. lia.
+Qed.
+
+(* cbor.Decode(bs, &[]RawMessage): the elements are byte strings no longer than bs, as are all of them together *)
+Definition sum_len (l : list bytes) : nat := list_sum (map (@length N) l).
+Lemma raw_list_sound bs l : all_bytes bs -> raw_list bs = Some l ->
+  Forall all_bytes l /\ (sum_len l <= length bs)%nat /\ (length l <= sum_len l)%nat.
+Proof.
+  intros Hb. unfold raw_list. destruct (sd_items bs 0) as [[xs n]|] eqn:E; [|discriminate]. intros [= <-].
+  destruct (sd_items_sound bs 0 xs n Hb E) as (W & S & Hn). unfold sum_len. rewrite map_map. split; [|split].
+  - apply Forall_forall. intros b Hin. apply in_map_iff in Hin. destruct Hin as (x & <- & Hx).
+    apply enc_bytes. eapply Forall_forall in W; eauto.
+  - cbn in Hn. lia.
+  - rewrite map_length. apply sum_ge_count.
+Qed.
+
+Lemma sum_len_in (l : list bytes) b : In b l -> (length b <= sum_len l)%nat.
+Proof.
+  unfold sum_len, list_sum. induction l as [|x r IH]; [intros []|]. cbn [map fold_right]. intros [->|H]; [lia|]. specialize (IH H). lia.
+Qed.
+
+(* ---- the loop bodies ---- *)
+Ltac step_trivial := split; [reflexivity|]; intros ? [= <-]; try (split; [lia|]); intros; nia.
+
+Lemma datum_step_good AB data base hs pos : (hs <= length data)%nat -> (pos <= length data - hs)%nat ->
+  good_step AB (length data - hs) 0 pos (datum_step data base hs pos).
+Proof.
+  intros Hhs Hp. unfold datum_step, good_step.
+  destruct (sd_skip (skipn hs data) pos) as [[u n]|] eqn:E; [|step_trivial].
+  apply sd_val_bounds in E. rewrite skipn_length in E. rewrite slice_ok by (rewrite ?skipn_length; lia). cbn [bind].
+  step_trivial.
+Qed.
+
+Lemma datum_offsets_spec fuel data base : (length data < fuel)%nat ->
+  isval (datum_offsets fuel data base) = true /\
+  forall es t, datum_offsets fuel data base = Val (es, t) -> (t <= length data)%nat.
+Proof.
+  intros Hf. unfold datum_offsets. destruct (Nat.ltb (length data) 1); [split; [reflexivity|intros es t [= _ <-]; lia]|].
+  destruct (skip_tags_spec fuel data 0 0 Hf) as (d & ts & k & -> & _ & _ & Hl). cbn [bind].
+  destruct (wrun_spec True 128 fuel d (datum_step d (u32 (base + ts))) 0) as [B T]; [lia| |].
+  { intros hs pos Hh Hp. apply datum_step_good; lia. }
+  destruct (wrun 128 fuel d (datum_step d (u32 (base + ts)))) as [[es t]| | |]; try discriminate; cbn [bind fst snd].
+  - split; [reflexivity|]. intros es' t' [= _ <-]. specialize (T I es t eq_refl). lia.
+Qed.
+
+Lemma redeemer_arr_step_good AB data base hs pos : (hs <= length data)%nat -> (pos <= length data - hs)%nat ->
+  good_step AB (length data - hs) 0 pos (redeemer_arr_step data base hs pos).
+Proof.
+  intros Hhs Hp. unfold redeemer_arr_step, good_step.
+  destruct (sd_skip (skipn hs data) pos) as [[u n]|] eqn:E; [|step_trivial].
+  apply sd_val_bounds in E. rewrite skipn_length in E. rewrite slice_ok by (rewrite ?skipn_length; lia). cbn [bind].
+  set (elem := firstn (pos + n - pos) (skipn pos (skipn hs data))).
+  unfold array_info. destruct (info_spec 128 elem) as (c & ih & ind & -> & _). cbn [bind].
+  destruct (Nat.leb_spec (length elem) ih); [step_trivial|].
+  rewrite slice_from_ok by lia. cbn [bind].
+  destruct (sd_uint (skipn ih elem) 0) as [[purpose l1]|]; [|step_trivial].
+  destruct (sd_uint (skipn ih elem) l1) as [[index l2]|]; [|step_trivial].
+  destruct (sd_skip (skipn ih elem) (l1 + l2)) as [[u2 dl]|]; step_trivial.
+Qed.
+
+Lemma redeemer_map_step_good AB data base hs pos : (hs <= length data)%nat -> (pos <= length data - hs)%nat ->
+  good_step AB (length data - hs) 0 pos (redeemer_map_step data base hs pos).
+Proof.
+  intros Hhs Hp. unfold redeemer_map_step, good_step.
+  destruct (sd_uints (skipn hs data) pos) as [[kp kl]|] eqn:E; [|step_trivial].
+  apply sd_val_bounds in E. rewrite skipn_length in E.
+  destruct kp as [|purpose [|index kr]]; try step_trivial.
+  destruct (sd_skip (skipn hs data) (pos + kl)) as [[u vl]|] eqn:E2; [|step_trivial].
+  apply sd_val_bounds in E2. rewrite skipn_length in E2. rewrite slice_ok by (rewrite ?skipn_length; lia). cbn [bind].
+  set (value := firstn (pos + kl + vl - (pos + kl)) (skipn (pos + kl) (skipn hs data))).
+  unfold array_info. destruct (info_spec 128 value) as (c & vh & ind & -> & _). cbn [bind].
+  destruct (Nat.leb_spec (length value) vh); [step_trivial|].
+  rewrite slice_from_ok by lia. cbn [bind].
+  destruct (sd_skip (skipn vh value) 0) as [[u2 dl]|]; step_trivial.
+Qed.
+
+Lemma redeemer_offsets_spec fuel data base : (length data < fuel)%nat ->
+  isval (redeemer_offsets fuel data base) = true /\
+  forall es t, redeemer_offsets fuel data base = Val (es, t) -> (t <= length data)%nat.
+Proof.
+  intros Hf. unfold redeemer_offsets.
+  destruct (Nat.ltb_spec (length data) 1); [split; [reflexivity|intros es t [= _ <-]; lia]|].
+  destruct (idx_lt data 0) as (b0 & ->); [lia|]. cbn [bind].
+  destruct (N.land b0 224 =? 128).
+  { destruct (wrun_spec True 128 fuel data (redeemer_arr_step data base) 0 Hf) as [B T].
+    { intros hs pos Hh Hp. apply redeemer_arr_step_good; lia. }
+    split; [exact B|]. intros es t E. specialize (T I es t E). lia. }
+  destruct (N.land b0 224 =? 160).
+  { destruct (wrun_spec True 160 fuel data (redeemer_map_step data base) 0 Hf) as [B T].
+    { intros hs pos Hh Hp. apply redeemer_map_step_good; lia. }
+    split; [exact B|]. intros es t E. specialize (T I es t E). lia. }
+  split; [reflexivity|intros es t [= _ <-]; lia].
+Qed.
+
+Lemma script_offsets_spec fuel ty data base : (length data < fuel)%nat ->
+  isval (script_offsets fuel ty data base) = true /\
+  (all_bytes data -> forall es t, script_offsets fuel ty data base = Val (es, t) -> (t <= 2 * length data)%nat).
+Proof.
+  intros Hf. unfold script_offsets.
+  destruct (Nat.ltb (length data) 1); [split; [reflexivity|intros _ es t [= _ <-]; lia]|].
+  destruct (raw_list data) as [scripts|] eqn:R; [|split; [reflexivity|intros _ es t [= _ <-]; lia]].
+  destruct (skip_tags_spec fuel data 0 0 Hf) as (d & ts & k & -> & _ & _ & Hl). cbn [bind].
+  assert (F : exists b, (if Nat.ltb 0 (length d) then b <- idx d 0 ;; Val (b =? 159) else Val false) = Val b).
+  { destruct (Nat.ltb_spec 0 (length d)) as [Ld|Ld]; [|eauto]. destruct (idx_lt d 0 Ld) as (b & ->). cbn [bind]. eauto. }
+  destruct F as (is9f & ->). cbn [bind].
+  assert (G : exists h, (if is9f then Val 1 else r <- array_info d ;; Val (N.of_nat (snd (fst r)))) = Val h).
+  { destruct is9f; [eauto|]. unfold array_info. destruct (info_spec 128 d) as (c & h & ind & -> & _). cbn [bind]. eauto. }
+  destruct G as (h & ->). cbn [bind]. split; [reflexivity|].
+  intros Hb es t [= _ <-]. destruct (raw_list_sound data scripts Hb R) as (_ & S1 & S2). lia.
+Qed.
+
+(* the three component walkers a witness-set value can go to *)
+Definition inner_ok (f : nat -> bytes -> N -> out (list comp * nat)) (c : nat) : Prop :=
+  forall fuel data base, (length data < fuel)%nat ->
+    isval (f fuel data base) = true /\
+    (all_bytes data -> forall es t, f fuel data base = Val (es, t) -> (t <= c * length data)%nat).
+
+Lemma witness_step_good fuel data base hs pos : (length data < fuel)%nat -> (hs <= length data)%nat -> (pos <= length data - hs)%nat ->
+  good_step (all_bytes data) (length data - hs) 2 pos (witness_step fuel data base hs pos).
+Proof.
+  intros Hf Hhs Hp. unfold witness_step, good_step.
+  destruct (sd_uint (skipn hs data) pos) as [[key kl]|] eqn:E; [|step_trivial].
+  apply sd_val_bounds in E. rewrite skipn_length in E.
+  destruct (sd_skip (skipn hs data) (pos + kl)) as [[u vl]|] eqn:E2; [|step_trivial].
+  apply sd_val_bounds in E2. rewrite skipn_length in E2. rewrite slice_ok by (rewrite ?skipn_length; lia). cbn [bind].
+  set (value := firstn (pos + kl + vl - (pos + kl)) (skipn (pos + kl) (skipn hs data))).
+  assert (Lv : (length value = vl)%nat).
+  { unfold value. rewrite firstn_length, !skipn_length. lia. }
+  assert (Bv : all_bytes data -> all_bytes value).
+  { intros Hb. unfold value. apply all_bytes_firstn, all_bytes_skipn, all_bytes_skipn. exact Hb. }
+  set (abs := u32 (base + N.of_nat hs + N.of_nat (pos + kl))).
+  assert (INNER : forall f c, inner_ok f c -> (c <= 2)%nat ->
+            isval (r <- f fuel value abs ;; Val (SNext (fst r) (pos + kl + vl) (snd r))) = true /\
+            forall x, (r <- f fuel value abs ;; Val (SNext (fst r) (pos + kl + vl) (snd r))) = Val x ->
+              match x with
+              | SNext _ pos' t => (pos < pos' <= length data - hs)%nat /\ (all_bytes data -> (t <= 2 * (pos' - pos))%nat)
+              | SStop _ t | SAbort t => all_bytes data -> (t <= 2 * (length data - hs - pos))%nat
+              end).
+  { intros f c Hi Hc. destruct (Hi fuel value abs) as [B T]; [lia|].
+    destruct (f fuel value abs) as [[es t]| | |]; try discriminate; cbn [bind fst snd].
+    split; [reflexivity|]. intros x [= <-]. split; [lia|]. intros Hb. specialize (T (Bv Hb) es t eq_refl). nia. }
+  assert (ID : inner_ok datum_offsets 1%nat).
+  { intros fu d b Hfu. destruct (datum_offsets_spec fu d b Hfu) as [B T]. split; [exact B|]. intros _ es t E3. specialize (T es t E3). lia. }
+  assert (IR : inner_ok redeemer_offsets 1%nat).
+  { intros fu d b Hfu. destruct (redeemer_offsets_spec fu d b Hfu) as [B T]. split; [exact B|]. intros _ es t E3. specialize (T es t E3). lia. }
+  assert (IS : forall ty, inner_ok (fun fu => script_offsets fu ty) 2%nat).
+  { intros ty fu d b Hfu. apply script_offsets_spec. exact Hfu. }
+  destruct (key =? 4); [apply (INNER datum_offsets 1%nat ID); lia|].
+  destruct (key =? 5); [apply (INNER redeemer_offsets 1%nat IR); lia|].
+  destruct (key =? 1); [apply (INNER (fun fu => script_offsets fu 0) 2%nat (IS 0)); lia|].
+  destruct (key =? 3); [apply (INNER (fun fu => script_offsets fu 1) 2%nat (IS 1)); lia|].
+  destruct (key =? 6); [apply (INNER (fun fu => script_offsets fu 2) 2%nat (IS 2)); lia|].
+  destruct (key =? 7); [apply (INNER (fun fu => script_offsets fu 3) 2%nat (IS 3)); lia|].
+  destruct (key =? 8); [apply (INNER (fun fu => script_offsets fu 4) 2%nat (IS 4)); lia|].
+  cbn [bind fst snd]. split; [reflexivity|]. intros x [= <-]. split; [lia|intros; lia].
+Qed.
+
+Lemma witness_components_spec fuel data base : (length data < fuel)%nat ->
+  isval (witness_components fuel data base) = true /\
+  (all_bytes data -> forall es t, witness_components fuel data base = Val (es, t) -> (t <= 3 * length data)%nat).
+Proof.
+  intros Hf. unfold witness_components.
+  destruct (Nat.ltb (length data) 2); [split; [reflexivity|intros _ es t [= _ <-]; lia]|].
+  apply (wrun_spec (all_bytes data) 160 fuel data (witness_step fuel data base) 2 Hf).
+  intros hs pos Hh Hp. apply witness_step_good; lia.
+Qed.
+
+(* ---- outputs ---- *)
 Lemma adjust_output_no_bad body bo op : bad (adjust_output_offset body bo op) = false.
 Proof.
   unfold adjust_output_offset. set (bi := N.to_nat ((op + two32 - bo mod two32) mod two32)).
@@ -490,6 +769,163 @@ Proof.
   destruct (idx_lt body (bi - 1)) as (p & ->); [lia|]. reflexivity.
 Qed.
 
+Lemma walk_outputs_val heur body bo : forall outs pos, exists rs, walk_outputs heur body bo pos outs = Val rs.
+Proof.
+  induction outs as [|o r IH]; intros pos; cbn [walk_outputs]; [eauto|].
+  assert (P : exists p, (if heur then adjust_output_offset body bo pos else Val pos) = Val p).
+  { destruct heur; [|eauto].
+    unfold adjust_output_offset. set (bi := N.to_nat ((pos + two32 - bo mod two32) mod two32)).
+    destruct (Nat.ltb_spec bi (length body)) as [L|L]; [|eauto].
+    destruct (idx_lt body bi L) as (b & ->). cbn [bind].
+    destruct (negb (is_out_start b) && Nat.ltb 0 bi) eqn:E; [|eauto].
+    apply andb_true_iff in E. destruct E as [_ E]. apply Nat.ltb_lt in E.
+    destruct (idx_lt body (bi - 1)) as (p & ->); [lia|]. cbn [bind]. eauto. }
+  destruct P as (p & ->). cbn [bind]. destruct (IH (u32 (pos + u32 (nlen o)))) as (rs & ->). cbn [bind]. eauto.
+Qed.
+
+Lemma outputs_step_good heur body bo hs pos : (hs <= length body)%nat -> (pos <= length body - hs)%nat ->
+  good_step (all_bytes body) (length body - hs) 1 pos (outputs_step heur body bo hs pos).
+Proof.
+  intros Hhs Hp. unfold outputs_step, good_step.
+  destruct (sd_uint (skipn hs body) pos) as [[key kl]|] eqn:E; [|step_trivial].
+  apply sd_val_bounds in E. rewrite skipn_length in E.
+  destruct (key =? 1).
+  - destruct (sd_items (skipn hs body) (pos + kl)) as [[outs n]|] eqn:E2; [|step_trivial].
+    pose proof (sd_val_bounds _ _ _ _ _ E2) as B2. rewrite skipn_length in B2.
+    rewrite slice_from_ok by lia. cbn [bind].
+    destruct (array_header_size_of_val (skipn (hs + (pos + kl)) body) (length (map enc outs))) as (h & ->). cbn [bind].
+    destruct (walk_outputs_val heur body bo (map enc outs) (u32 (u32 (bo + N.of_nat hs + N.of_nat (pos + kl)) + h))) as (rs & ->).
+    cbn [bind]. split; [reflexivity|]. intros x [= <-]. intros Hb.
+    destruct (sd_items_sound (skipn hs body) (pos + kl) outs n (all_bytes_skipn _ _ Hb) E2) as (_ & S & _).
+    pose proof (sum_ge_count outs). rewrite map_length. lia.
+  - destruct (sd_skip (skipn hs body) (pos + kl)) as [[u vl]|] eqn:E2; [|step_trivial].
+    apply sd_val_bounds in E2. rewrite skipn_length in E2. step_trivial.
+Qed.
+
+Lemma output_offsets_spec heur fuel body bo : (length body < fuel)%nat ->
+  isval (output_offsets heur fuel body bo) = true /\
+  (all_bytes body -> forall es t, output_offsets heur fuel body bo = Val (es, t) -> (t <= 2 * length body)%nat).
+Proof.
+  intros Hf. unfold output_offsets.
+  destruct (Nat.ltb (length body) 2); [split; [reflexivity|intros _ es t [= _ <-]; lia]|].
+  apply (wrun_spec (all_bytes body) 160 fuel body (outputs_step heur body bo) 1 Hf).
+  intros hs pos Hh Hp. apply outputs_step_good; lia.
+Qed.
+
+(* ---- metadata ---- *)
+Lemma metadata_step_good AB data base hs pos : (hs <= length data)%nat -> (pos <= length data - hs)%nat ->
+  good_step AB (length data - hs) 0 pos (metadata_step data base hs pos).
+Proof.
+  intros Hhs Hp. unfold metadata_step, good_step.
+  destruct (sd_uint (skipn hs data) pos) as [[key kl]|] eqn:E; [|step_trivial].
+  apply sd_val_bounds in E. rewrite skipn_length in E.
+  destruct (sd_skip (skipn hs data) (pos + kl)) as [[u vl]|] eqn:E2; [|step_trivial].
+  apply sd_val_bounds in E2. rewrite skipn_length in E2. step_trivial.
+Qed.
+
+Lemma metadata_offsets_spec fuel data base : (length data < fuel)%nat ->
+  isval (metadata_offsets fuel data base) = true /\
+  forall es t, metadata_offsets fuel data base = Val (es, t) -> (t <= length data)%nat.
+Proof.
+  intros Hf. unfold metadata_offsets.
+  destruct (Nat.eqb (length data) 0); [split; [reflexivity|intros es t [= _ <-]; lia]|].
+  destruct (wrun_spec True 160 fuel data (metadata_step data base) 0 Hf) as [B T].
+  { intros hs pos Hh Hp. apply metadata_step_good; lia. }
+  split; [exact B|]. intros es t E. specialize (T I es t E). lia.
+Qed.
+
+(* ---- the loops over the decoded bodies / witness sets ---- *)
+Lemma walk_bodies_spec heur fuel : forall bodies pos, Forall all_bytes bodies -> (sum_len bodies < fuel)%nat ->
+  isval (walk_bodies heur fuel pos bodies) = true /\
+  forall l t, walk_bodies heur fuel pos bodies = Val (l, t) -> (t <= length bodies + 2 * sum_len bodies)%nat.
+Proof.
+  induction bodies as [|b r IH]; intros pos Hb Hf; cbn [walk_bodies].
+  { split; [reflexivity|]. intros l t [= _ <-]. cbn. lia. }
+  inversion Hb as [|? ? Hb1 Hb2]; subst.
+  assert (Es : (sum_len (b :: r) = length b + sum_len r)%nat) by reflexivity.
+  destruct (output_offsets_spec heur fuel b pos) as [B T]; [lia|].
+  destruct (output_offsets heur fuel b pos) as [[o t1]| | |]; try discriminate; cbn [bind].
+  specialize (T Hb1 o t1 eq_refl).
+  destruct (IH (u32 (pos + u32 (nlen b))) Hb2) as [B2 T2]; [lia|].
+  destruct (walk_bodies heur fuel (u32 (pos + u32 (nlen b))) r) as [[l2 t2]| | |]; try discriminate; cbn [bind fst snd].
+  specialize (T2 l2 t2 eq_refl). split; [reflexivity|]. intros l t [= _ <-]. cbn [length]. lia.
+Qed.
+
+Lemma walk_witnesses_spec fuel : forall wits pos, Forall all_bytes wits -> (sum_len wits < fuel)%nat ->
+  isval (walk_witnesses fuel pos wits) = true /\
+  forall l t, walk_witnesses fuel pos wits = Val (l, t) -> (t <= length wits + 3 * sum_len wits)%nat.
+Proof.
+  induction wits as [|w r IH]; intros pos Hb Hf; cbn [walk_witnesses].
+  { split; [reflexivity|]. intros l t [= _ <-]. cbn. lia. }
+  inversion Hb as [|? ? Hb1 Hb2]; subst.
+  assert (Es : (sum_len (w :: r) = length w + sum_len r)%nat) by reflexivity.
+  destruct (witness_components_spec fuel w pos) as [B T]; [lia|].
+  destruct (witness_components fuel w pos) as [[c t1]| | |]; try discriminate; cbn [bind].
+  specialize (T Hb1 c t1 eq_refl).
+  destruct (IH (u32 (pos + u32 (nlen w))) Hb2) as [B2 T2]; [lia|].
+  destruct (walk_witnesses fuel (u32 (pos + u32 (nlen w))) r) as [[l2 t2]| | |]; try discriminate; cbn [bind fst snd].
+  specialize (T2 l2 t2 eq_refl). split; [reflexivity|]. intros l t [= _ <-]. cbn [length]. lia.
+Qed.
+
+(* ---- ExtractTransactionOffsets / DecodeWithOffsets ---- *)
+Lemma extract_offsets_spec streaming fuel data : all_bytes data -> (length data < fuel)%nat ->
+  bad (extract_offsets streaming fuel data) = false /\
+  forall txs t, extract_offsets streaming fuel data = Val (XDone txs t) -> (t <= 6 * length data)%nat.
+Proof.
+  intros Hb Hf. unfold extract_offsets.
+  destruct (raw_list data) as [blk|] eqn:R; [|split; [reflexivity|discriminate]].
+  destruct (raw_list_sound data blk Hb R) as (Fb & S1 & S2).
+  destruct (negb streaming && is_dijkstra_block blk); [split; [reflexivity|discriminate]|].
+  destruct (Nat.ltb_spec (length blk) 3); [split; [reflexivity|intros txs t [= _ <-]; lia]|].
+  destruct (is_byron_block blk); [split; [reflexivity|discriminate]|].
+  destruct (Nat.ltb_spec (length blk) 4) as [L4|L4]; [split; [reflexivity|intros txs t [= _ <-]; lia]|].
+  rewrite slice_from_ok by lia. cbn [bind skipn].
+  destruct (array_header_size_of_val data (length blk)) as (ahs & ->). cbn [bind].
+  destruct blk as [|b0 [|b1 [|b2 [|b3 br]]]]; cbn [length] in L4; try lia.
+  assert (Hl : (length b1 <= length data /\ length b2 <= length data /\ length b3 <= length data /\
+                length b1 + length b2 + length b3 <= length data)%nat).
+  { unfold sum_len in S1. cbn [map list_sum fold_right] in S1. unfold list_sum in S1. cbn [fold_right] in S1. lia. }
+  inversion Fb as [|? ? F0 Fb1]; subst. inversion Fb1 as [|? ? F1 Fb2]; subst.
+  inversion Fb2 as [|? ? F2 Fb3]; subst. inversion Fb3 as [|? ? F3 _]; subst.
+  destruct (raw_list b1) as [bodies|] eqn:R1; [|split; [reflexivity|discriminate]].
+  destruct (raw_list b2) as [wits|] eqn:R2; [|split; [reflexivity|discriminate]].
+  destruct (raw_list_sound b1 bodies F1 R1) as (FB & SB1 & SB2).
+  destruct (raw_list_sound b2 wits F2 R2) as (FW & SW1 & SW2).
+  destruct (negb (Nat.eqb (length bodies) (length wits))); [split; [reflexivity|discriminate]|].
+  set (meta_off := u32 (u32 (u32 (ahs + u32 (nlen b0)) + u32 (nlen b1)) + u32 (nlen b2))).
+  assert (M : exists ms tm, (if Nat.ltb 1 (length b3) then metadata_offsets fuel b3 meta_off else Val ([], 0%nat)) = Val (ms, tm) /\ (tm <= length b3)%nat).
+  { destruct (Nat.ltb 1 (length b3)); [|exists [], 0%nat; split; [reflexivity|lia]].
+    destruct (metadata_offsets_spec fuel b3 meta_off) as [B T]; [lia|].
+    destruct (metadata_offsets fuel b3 meta_off) as [[ms tm]| | |]; try discriminate. exists ms, tm. split; [reflexivity|]. eapply T; eauto. }
+  destruct M as (ms & tm & -> & Htm). cbn [bind].
+  destruct (array_header_size_of_val b1 (length bodies)) as (bh & ->). cbn [bind].
+  destruct (walk_bodies_spec (negb streaming) fuel bodies (u32 (u32 (ahs + u32 (nlen b0)) + bh)) FB) as [B1 T1]; [lia|].
+  destruct (walk_bodies (negb streaming) fuel (u32 (u32 (ahs + u32 (nlen b0)) + bh)) bodies) as [[bl tb]| | |];
+    try discriminate; cbn [bind].
+  specialize (T1 bl tb eq_refl).
+  destruct (array_header_size_of_val b2 (length wits)) as (wh & ->). cbn [bind].
+  destruct (walk_witnesses_spec fuel wits (u32 (u32 (u32 (ahs + u32 (nlen b0)) + u32 (nlen b1)) + wh)) FW) as [B2 T2]; [lia|].
+  destruct (walk_witnesses fuel (u32 (u32 (u32 (ahs + u32 (nlen b0)) + u32 (nlen b1)) + wh)) wits) as [[wl tw]| | |];
+    try discriminate; cbn [bind fst snd].
+  specialize (T2 wl tw eq_refl).
+  split; [reflexivity|]. intros txs t [= _ <-]. lia.
+Qed.
+
+(* Extract*Cbor: the uint64 bound check makes the uint32 slice bounds safe (blocks below 4 GiB) *)
+Lemma extract_cbor_no_bad data off len : (N.of_nat (length data) < two32) -> bad (extract_cbor data (off, len)) = false.
+Proof.
+  intros Hd. unfold extract_cbor. destruct (N.ltb_spec (N.of_nat (length data)) (off + len)) as [H|H]; [reflexivity|].
+  unfold u32. rewrite N.mod_small by (unfold two32 in *; lia).
+  rewrite slice_ok by lia. reflexivity.
+Qed.
+
+(* DecodeArrayItems *)
+Lemma decode_array_items_no_bad data abs : bad (decode_array_items data abs) = false.
+Proof.
+  unfold decode_array_items. destruct (sd_items data abs) as [[xs n]|]; [|reflexivity].
+  pose proof (header_size_no_bad data abs) as B.
+  destruct (header_size_from_bytes data abs); cbn [bind] in *; try discriminate; reflexivity.
+Qed.
 (* ================================================================== *)
 (* muxer.readLoop framing *)
 Lemma idx_byte data i b : all_bytes data -> idx data i = Val b -> b < 256.
@@ -532,168 +968,318 @@ Qed.
 
 (* protocol.readLoop buffer handling; the library contract: NumBytesRead <= len(buffer) *)
 Section proto.
-  Variable lib : bytes -> option (nat * nat).
-  Hypothesis lib_reads_within : forall buf n k, lib buf = Some (n, k) -> (n <= length buf)%nat.
+  Variable lib : bytes -> lib_res.
+  Variable typ : bytes -> option N.
+  Hypothesis lib_reads_within : forall buf n k first, lib buf = LMsg n k first -> (n <= length buf)%nat.
 
-  Lemma proto_read_spec : forall fuel buf msgs, (length buf < fuel)%nat ->
-    bad (proto_read lib fuel buf msgs) = false /\
-    forall m, proto_read lib fuel buf msgs = Val m -> (m <= msgs + length buf)%nat.
+  Lemma proto_drain_spec : forall fuel buf acc, (length buf < fuel)%nat ->
+    isval (proto_drain lib typ fuel buf acc) = true /\
+    forall acc' st, proto_drain lib typ fuel buf acc = Val (acc', st) ->
+      (length acc' <= length acc + length buf)%nat /\
+      match st with PWait b => (length b + (length acc' - length acc) <= length buf)%nat | PStop => True end.
   Proof.
-    induction fuel as [|f IH]; intros buf msgs Hf; [lia|].
-    cbn [proto_read]. destruct (Nat.eqb_spec (length buf) 0); [split; [reflexivity|intros m [= <-]; lia]|].
-    destruct (lib buf) as [[n' k]|] eqn:El; [|split; [reflexivity|intros m [= <-]; lia]].
-    pose proof (lib_reads_within _ _ _ El) as Hn.
-    destruct (Nat.eqb_spec n' 0) as [N0|N0]; cbn [orb]; [split; [reflexivity|intros m [= <-]; lia]|].
-    destruct (Nat.eqb_spec k 0) as [K0|K0]; [split; [reflexivity|intros m [= <-]; lia]|].
-    destruct (Nat.ltb_spec 0 k); [|lia]. cbn [bind]. rewrite slice_ok by lia. cbn [bind].
-    destruct (Nat.ltb_spec n' (length buf)).
-    - rewrite slice_from_ok by lia. cbn [bind]. destruct (IH (skipn n' buf) (S msgs)) as [B R]; [rewrite skipn_length; lia|].
-      split; [exact B|]. intros m E. specialize (R m E). rewrite skipn_length in R. lia.
-    - split; [reflexivity|intros m [= <-]; lia].
+    induction fuel as [|f IH]; intros buf acc Hf; [lia|].
+    cbn [proto_drain].
+    destruct (Nat.eqb_spec (length buf) 0); [split; [reflexivity|intros acc' st [= <- <-]; split; [lia|exact I]]|].
+    destruct (lib buf) as [n' k first| |] eqn:El.
+    - pose proof (lib_reads_within _ _ _ _ El) as Hn.
+      destruct (Nat.eqb_spec n' 0) as [N0|N0]; cbn [orb]; [split; [reflexivity|intros acc' st [= <- <-]; split; [lia|exact I]]|].
+      destruct (Nat.eqb_spec k 0) as [K0|K0]; [split; [reflexivity|intros acc' st [= <- <-]; split; [lia|exact I]]|].
+      destruct (Nat.ltb_spec 0 k); [|lia]. cbn [bind].
+      destruct (typ first) as [ty|]; [|split; [reflexivity|intros acc' st [= <- <-]; split; [lia|exact I]]].
+      rewrite slice_ok by lia. cbn [bind].
+      destruct (Nat.ltb_spec n' (length buf)).
+      + rewrite slice_from_ok by lia. cbn [bind].
+        destruct (IH (skipn n' buf) (acc ++ [(ty, firstn (n' - 0) (skipn 0 buf))])) as [B R]; [rewrite skipn_length; lia|].
+        split; [exact B|]. intros acc' st E. destruct (R acc' st E) as [R1 R2].
+        rewrite app_length, skipn_length in *. cbn [length] in *. split; [lia|]. destruct st; [lia|exact I].
+      + split; [reflexivity|]. intros acc' st [= <- <-]. rewrite app_length. cbn [length]. split; lia.
+    - destruct (max_read_buffer <? nlen buf); (split; [reflexivity|]); intros acc' st [= <- <-]; (split; [lia|]); [exact I|lia].
+    - split; [reflexivity|]. intros acc' st [= <- <-]. split; [lia|exact I].
+  Qed.
+
+  Lemma proto_read_spec fuel : forall segs si buf acc, (length buf + length (concat segs) < fuel)%nat ->
+    isval (proto_read lib typ fuel segs si buf acc) = true /\
+    forall ms e, proto_read lib typ fuel segs si buf acc = Val (ms, e) ->
+      (length ms <= length acc + length buf + length (concat segs))%nat.
+  Proof.
+    induction segs as [|s r IH]; intros si buf acc Hf; cbn [proto_read].
+    { split; [reflexivity|]. intros ms e [= <- _]. lia. }
+    cbn [concat] in Hf. rewrite app_length in Hf.
+    destruct (proto_drain_spec fuel (buf ++ s) []) as [B R]; [rewrite app_length; lia|].
+    destruct (proto_drain lib typ fuel (buf ++ s) []) as [[msgs st]| | |]; try discriminate. cbn [bind].
+    destruct (R msgs st eq_refl) as [R1 R2]. rewrite app_length in *. cbn [length] in *.
+    destruct st as [b|].
+    - destruct (IH (S si) b (acc ++ map (fun m => (si, m)) msgs)) as [B2 T2]; [lia|].
+      split; [exact B2|]. intros ms e E. specialize (T2 ms e E). rewrite app_length, map_length in T2.
+      cbn [concat]. rewrite app_length. lia.
+    - split; [reflexivity|]. intros ms e [= <- _]. rewrite app_length, map_length. cbn [concat]. rewrite app_length. lia.
   Qed.
 End proto.
 
+Lemma lib_cbor_within buf n k first : lib_cbor buf = LMsg n k first -> (n <= length buf)%nat.
+Proof.
+  unfold lib_cbor. destruct (parse_full buf) as [i rest| |] eqn:E; try discriminate.
+  destruct (items_of i); [|discriminate]. intros [= <- _ _]. lia.
+Qed.
 (* ================================================================== *)
-(* cbor/diagnostic.go: index safety of parseDiagnosticNode and its loops,
-   for EVERY fuel (termination of this walker is not proved here) *)
+(* cbor/diagnostic.go: parseDiagnosticNode and its loops.
+   For EVERY fuel: no index / slice expression is out of range, and the number
+   of parseDiagnosticNode calls (ticks) is at most len - pos + 1 whatever the
+   outcome - every call that got as far as reading its first byte owns that
+   byte.  For fuel >= 2 * (len - pos) + 1 the fuel is never exhausted: the
+   walker terminates. *)
 Definition panics {A} (r : out A) : bool := match r with Panic => true | _ => false end.
+Definition oof {A} (r : out A) : bool := match r with OutOfFuel => true | _ => false end.
 
-Lemma panics_bind {A B} (r : out A) (k : A -> out B) :
-  panics r = false -> (forall a, r = Val a -> panics (k a) = false) -> panics (bind r k) = false.
-Proof. destruct r; cbn; intros H1 H2; try discriminate; auto. Qed.
+Lemma bad_split {A} (r : out A) : bad r = false <-> panics r = false /\ oof r = false.
+Proof. destruct r; cbn; intuition congruence. Qed.
 
-Lemma bind_val {A B} (r : out A) (k : A -> out B) v : bind r k = Val v -> exists a, r = Val a /\ k a = Val v.
-Proof. destruct r; cbn; try discriminate. eauto. Qed.
-
-Lemma bad_panics {A} (r : out A) : bad r = false -> panics r = false.
-Proof. destruct r; cbn; congruence. Qed.
+Lemma tbind_val {A B} (a : A) (k : A -> tk B) : tbind (tlift (Val a)) k = k a.
+Proof. unfold tbind, tlift. cbn [fst snd]. destruct (k a); reflexivity. Qed.
+Lemma tbind_val_t {A B} (a : A) (t : nat) (k : A -> tk B) : tbind (Val a, t) k = (fst (k a), (t + snd (k a))%nat).
+Proof. reflexivity. Qed.
+Lemma tbind_err {A B} (t : nat) (k : A -> tk B) : tbind (Err, t) k = (Err, t).
+Proof. reflexivity. Qed.
+Lemma tbind_lift_err {A B} (k : A -> tk B) : tbind (tlift Err) k = (Err, 0%nat).
+Proof. reflexivity. Qed.
+Lemma tbind_panic {A B} (t : nat) (k : A -> tk B) : tbind (Panic, t) k = (Panic, t).
+Proof. reflexivity. Qed.
+Lemma tbind_oof {A B} (t : nat) (k : A -> tk B) : tbind (OutOfFuel, t) k = (OutOfFuel, t).
+Proof. reflexivity. Qed.
 
 Section diag.
   Variable ok : item -> bool.
   Variable data : bytes.
   Let L := length data.
 
-  Definition node_ok (fuel : nat) := forall depth pos,
-    panics (diag_node ok fuel data depth pos) = false /\
-    forall n e, diag_node ok fuel data depth pos = Val (n, e) -> (pos < e <= L)%nat.
-  Definition count_ok (fuel : nat) := forall depth pos k, (pos <= L)%nat ->
-    panics (diag_count ok fuel data depth pos k) = false /\
-    forall ks e, diag_count ok fuel data depth pos k = Val (ks, e) -> (pos <= e <= L)%nat.
-  Definition indef_ok (fuel : nat) := forall depth pos per chunk,
-    panics (diag_indef ok fuel data depth pos per chunk) = false /\
-    forall ks e, diag_indef ok fuel data depth pos per chunk = Val (ks, e) -> (pos < e <= L)%nat.
+  (* what one parser call at `pos` guarantees; `extra` = ticks already spent by the
+     caller on behalf of this call, `fu` = the fuel condition under which it does not run out *)
+  Definition GP {K} (pos : nat) (strict : bool) (extra : nat) (fu : Prop) (m : tk (K * nat)) : Prop :=
+    panics (fst m) = false /\
+    (forall x e, fst m = Val (x, e) -> ((if strict then S pos else pos) <= e /\ e <= L)%nat /\ (extra + snd m <= e - pos)%nat) /\
+    (extra + snd m <= L - pos + 1)%nat /\
+    (fu -> oof (fst m) = false).
 
-  (* a container / tag / chunked string node: header consumed, children parsed, data[start:end] *)
-  Lemma wrap_ok {K} (pos hl : nat) (r : out (K * nat)) (mk : K -> list dnode) :
-    (1 <= hl)%nat ->
-    panics r = false -> (forall ks e, r = Val (ks, e) -> (pos + hl <= e <= L)%nat) ->
-    let res := (x <- r ;; let '(kids, e) := x in _ <- slice data pos e ;; Val (DN pos (e - pos) (mk kids), e)) in
-    panics res = false /\ forall n e, res = Val (n, e) -> (pos < e <= L)%nat.
+  Lemma gp_err {K} pos s extra fu t : (extra + t <= L - pos + 1)%nat -> @GP K pos s extra fu (Err, t).
+  Proof. intros H. repeat split; cbn; try discriminate; auto. Qed.
+
+  Lemma gp_tick {K} pos s fu (m : tk (K * nat)) : GP pos s 1 fu m -> GP pos s 0 fu (tick m).
   Proof.
-    intros Hh Hp Hr. cbv zeta. destruct r as [[ks e]| | |]; cbn [bind]; try discriminate; try (split; [reflexivity|discriminate]).
-    destruct (Hr ks e eq_refl) as [H1 H2]. rewrite slice_ok by (unfold L in *; lia). cbn [bind].
-    split; [reflexivity|]. intros n e' [= _ <-]. lia.
+    intros (H1 & H2 & H3 & H4). unfold tick, GP. cbn [fst snd]. split; [exact H1|]. split; [|split; [lia|exact H4]].
+    intros x e H. destruct (H2 x e H) as [Ha Hb]. split; [exact Ha|lia].
   Qed.
 
+  Lemma gp_fu {K} pos s extra (fu fu' : Prop) (m : tk (K * nat)) : (fu' -> fu) -> GP pos s extra fu m -> GP pos s extra fu' m.
+  Proof. intros Hf (H1 & H2 & H3 & H4). unfold GP. repeat (split; [assumption|]). auto. Qed.
+
+  (* a container / tag / chunked string: header of hl bytes consumed, children parsed from
+     pos + hl, then data[start:end] *)
+  Lemma close_ok {K} pos hl s fu (m : tk (K * nat)) (mk : K -> list dnode) :
+    (1 <= hl)%nat -> (pos + hl <= L)%nat -> GP (pos + hl) s 0 fu m ->
+    GP pos true 1 fu (r <~ m ;; diag_close data pos mk r).
+  Proof.
+    intros Hh Hl (H1 & H2 & H3 & H4). destruct m as [r t]. cbn [fst snd] in *.
+    destruct r as [[ks e]| | |]; unfold tbind; cbn [fst snd]; try discriminate.
+    - destruct (H2 ks e eq_refl) as [[Ha Hb] Hc]. unfold diag_close, tlift.
+      assert (Hpe : (pos <= e)%nat) by (destruct s; lia).
+      assert (HeL : (e <= length data)%nat) by exact Hb.
+      rewrite (slice_ok data pos e Hpe HeL). cbn [bind fst snd]. unfold GP. cbn [fst snd].
+      split; [reflexivity|]. split; [|split; [lia|reflexivity]].
+      intros x e' [= _ <-]. split; [split; [destruct s; lia|exact Hb]|destruct s; lia].
+    - unfold GP. cbn [fst snd]. split; [reflexivity|]. split; [discriminate|]. split; [lia|reflexivity].
+    - unfold GP. cbn [fst snd]. split; [reflexivity|]. split; [discriminate|]. split; [lia|exact H4].
+  Qed.
+
+  Definition node_ok (fuel : nat) := forall depth pos,
+    GP pos true 0 (2 * (L - pos) + 1 <= fuel)%nat (diag_node ok fuel data depth pos).
+  Definition count_ok (fuel : nat) := forall depth pos k, (pos <= L)%nat ->
+    GP pos false 0 (2 * (L - pos) + 2 <= fuel)%nat (diag_count ok fuel data depth pos k).
+  Definition indef_ok (fuel : nat) := forall depth pos per chunk,
+    GP pos true 0 (2 * (L - pos) + 2 <= fuel)%nat (diag_indef ok fuel data depth pos per chunk).
+
+  Lemma diag_node_S f depth pos : diag_node ok (S f) data depth pos =
+    tick (
+      if Nat.ltb max_diag_depth depth then tlift Err else
+      if Nat.leb (length data) pos then tlift Err else
+      first <~ tlift (idx data pos) ;;
+      let mt := N.land first 224 in
+      let ai := N.land first 31 in
+      let prim :=
+        tlift (match sd_next ok data pos with
+               | None => Err
+               | Some (_, n) => _ <- slice data pos (pos + n) ;; Val (DN pos n [], (pos + n)%nat)
+               end) in
+      if (mt =? 0) || (mt =? 32) || (mt =? 224) then prim
+      else if (mt =? 64) || (mt =? 96) then
+        if ai =? 31 then
+          _ <~ tlift (if Nat.ltb (length data) (pos + 1) then Err else Val tt) ;;
+          r <~ diag_indef ok f data (S depth) (pos + 1) 1 mt ;;
+          diag_close data pos (fun k => k) r
+        else prim
+      else if (mt =? 128) || (mt =? 160) then
+        h <~ tlift (collection_header data pos) ;;
+        let '(len, hl, indef) := h in
+        _ <~ tlift (if Nat.ltb (length data) (pos + hl) then Err else Val tt) ;;
+        let per := if mt =? 160 then 2%nat else 1%nat in
+        r <~ (if (indef : bool) then diag_indef ok f data (S depth) (pos + hl) per 0
+              else diag_count ok f data (S depth) (pos + hl) (len * N.of_nat per)) ;;
+        diag_close data pos (fun k => k) r
+      else
+        h <~ tlift (tag_header data pos) ;;
+        let '(_, hl) := h in
+        _ <~ tlift (if Nat.ltb (length data) (pos + hl) then Err else Val tt) ;;
+        r <~ diag_node ok f data (S depth) (pos + hl) ;;
+        diag_close data pos (fun k => [k]) r).
+  Proof. reflexivity. Qed.
+
   Lemma diag_count_S f depth pos k : diag_count ok (S f) data depth pos k =
-    if k =? 0 then Val ([], pos) else
-      r <- diag_node ok f data depth pos ;;
+    if k =? 0 then tlift (Val ([], pos)) else
+      r <~ diag_node ok f data depth pos ;;
       let '(kid, p1) := r in
-      r2 <- diag_count ok f data depth p1 (k - 1) ;;
-      let '(kids, e) := r2 in Val (kid :: kids, e).
+      r2 <~ diag_count ok f data depth p1 (k - 1) ;;
+      let '(kids, e) := r2 in tlift (Val (kid :: kids, e)).
   Proof. reflexivity. Qed.
 
   Lemma diag_indef_S f depth pos per chunk : diag_indef ok (S f) data depth pos per chunk =
-      if Nat.leb (length data) pos then Err else
-      b <- idx data pos ;;
+      if Nat.leb (length data) pos then tlift Err else
+      b <~ tlift (idx data pos) ;;
       if b =? 255 then
-        (if Nat.ltb (length data) (pos + 1) then Err else Val ([], (pos + 1)%nat))
+        tlift (if Nat.ltb (length data) (pos + 1) then Err else Val ([], (pos + 1)%nat))
       else
-        r <- diag_node ok f data depth pos ;;
+        r <~ diag_node ok f data depth pos ;;
         let '(k1, p1) := r in
-        _ <- (if negb (chunk =? 0) && (negb (N.land b 224 =? chunk) || (N.land b 31 =? 31)) then Err else Val tt) ;;
-        r1 <- (if Nat.eqb per 2 then
-                 r' <- diag_node ok f data depth p1 ;; let '(k2, p2) := r' in Val ([k1; k2], p2)
-               else Val ([k1], p1)) ;;
+        _ <~ tlift (if negb (chunk =? 0) && (negb (N.land b 224 =? chunk) || (N.land b 31 =? 31)) then Err else Val tt) ;;
+        r1 <~ (if Nat.eqb per 2 then
+                 r' <~ diag_node ok f data depth p1 ;; let '(k2, p2) := r' in tlift (Val ([k1; k2], p2))
+               else tlift (Val ([k1], p1))) ;;
         let '(ks, p2) := r1 in
-        r2 <- diag_indef ok f data depth p2 per chunk ;;
-        let '(kids, e) := r2 in Val (ks ++ kids, e).
+        r2 <~ diag_indef ok f data depth p2 per chunk ;;
+        let '(kids, e) := r2 in tlift (Val (ks ++ kids, e)).
   Proof. reflexivity. Qed.
 
   Lemma diag_all : forall fuel, node_ok fuel /\ count_ok fuel /\ indef_ok fuel.
   Proof.
     induction fuel as [|f (IHn & IHc & IHi)].
-    { repeat split; try reflexivity; cbn; discriminate. }
+    { repeat split; cbn; try discriminate; try lia. }
     assert (Hnode : node_ok (S f)).
-    { intros depth pos. cbn [diag_node].
-      destruct (Nat.ltb max_diag_depth depth); [split; [reflexivity|discriminate]|].
-      destruct (Nat.leb_spec (length data) pos) as [Lp|Lp]; [split; [reflexivity|discriminate]|].
-      destruct (idx_lt data pos Lp) as (first & ->). cbn [bind].
-      assert (PRIM : panics (match sd_next ok data pos with
-                             | None => Err
-                             | Some (_, n) => _ <- slice data pos (pos + n) ;; Val (DN pos n [], (pos + n)%nat) end) = false /\
-                     forall n e, match sd_next ok data pos with
-                             | None => Err
-                             | Some (_, n) => _ <- slice data pos (pos + n) ;; Val (DN pos n [], (pos + n)%nat) end = Val (n, e) -> (pos < e <= L)%nat).
-      { destruct (sd_next ok data pos) as [[it n]|] eqn:E; [|split; [reflexivity|discriminate]].
-        apply sd_next_bounds in E. rewrite slice_ok by lia. cbn [bind]. split; [reflexivity|]. intros n' e [= _ <-]. unfold L. lia. }
+    { intros depth pos. rewrite diag_node_S. apply gp_tick.
+      destruct (Nat.ltb max_diag_depth depth); [apply gp_err; cbn [Nat.add]; lia|].
+      destruct (Nat.leb_spec (length data) pos) as [Lp|Lp]; [apply gp_err; cbn [Nat.add]; lia|].
+      destruct (idx_lt data pos Lp) as (first & ->). rewrite tbind_val.
+      assert (PRIM : GP pos true 1 (2 * (L - pos) + 1 <= S f)%nat
+                (tlift (match sd_next ok data pos with
+                        | None => Err
+                        | Some (_, n) => _ <- slice data pos (pos + n) ;; Val (DN pos n [], (pos + n)%nat) end))).
+      { destruct (sd_next ok data pos) as [[it n]|] eqn:E; [|apply gp_err; cbn [Nat.add]; lia].
+        apply sd_next_bounds in E. rewrite slice_ok by lia. unfold tlift, GP. cbn [bind fst snd].
+        split; [reflexivity|]. split; [|split; [unfold L; lia|reflexivity]].
+        intros x e [= _ <-]. unfold L. lia. }
+      cbv zeta.
       destruct ((N.land first 224 =? 0) || (N.land first 224 =? 32) || (N.land first 224 =? 224)); [exact PRIM|].
       destruct ((N.land first 224 =? 64) || (N.land first 224 =? 96)).
       { destruct (N.land first 31 =? 31); [|exact PRIM].
-        destruct (Nat.ltb_spec (length data) (pos + 1)); cbn [bind]; [split; [reflexivity|discriminate]|].
-        destruct (IHi (S depth) (pos + 1)%nat 1%nat (N.land first 224)) as [P R].
-        apply (wrap_ok pos 1 _ (fun k => k)); [lia|exact P|]. intros ks e E. specialize (R ks e E). lia. }
+        destruct (Nat.ltb_spec (length data) (pos + 1)); [rewrite tbind_lift_err; apply gp_err; cbn [Nat.add]; lia|].
+        rewrite tbind_val.
+        apply (close_ok pos 1 true); [lia|unfold L; lia|].
+        eapply gp_fu; [|apply IHi]. unfold L in *. lia. }
       destruct ((N.land first 224 =? 128) || (N.land first 224 =? 160)).
       { destruct (collection_header_spec data pos) as [B R].
-        destruct (collection_header data pos) as [[[len hl] ind]| | |]; cbn [bind]; try discriminate; try (split; [reflexivity|discriminate]).
+        destruct (collection_header data pos) as [[[len hl] ind]| | |]; try discriminate;
+          [|rewrite tbind_lift_err; apply gp_err; cbn [Nat.add]; lia].
+        rewrite tbind_val.
         destruct (R _ _ _ eq_refl) as [Hh _].
-        destruct (Nat.ltb_spec (length data) (pos + hl)); cbn [bind]; [split; [reflexivity|discriminate]|].
-        apply (wrap_ok pos hl _ (fun k => k)); [lia| |].
-        - destruct ind; [apply IHi|apply IHc; unfold L; lia].
-        - intros ks e E. destruct ind.
-          + destruct (IHi (S depth) (pos + hl)%nat (if N.land first 224 =? 160 then 2%nat else 1%nat) 0) as [_ R']. specialize (R' ks e E). lia.
-          + destruct (IHc (S depth) (pos + hl)%nat (len * N.of_nat (if N.land first 224 =? 160 then 2 else 1))) as [_ R']; [unfold L; lia|]. specialize (R' ks e E). lia. }
+        destruct (Nat.ltb_spec (length data) (pos + hl)); [rewrite tbind_lift_err; apply gp_err; cbn [Nat.add]; lia|].
+        rewrite tbind_val.
+        destruct ind.
+        - apply (close_ok pos hl true); [lia|unfold L; lia|]. eapply gp_fu; [|apply IHi]. unfold L in *. lia.
+        - apply (close_ok pos hl false); [lia|unfold L; lia|]. eapply gp_fu; [|apply IHc; unfold L; lia]. unfold L in *. lia. }
       destruct (tag_header_spec data pos) as [B R].
-      destruct (tag_header data pos) as [[t hl]| | |]; cbn [bind]; try discriminate; try (split; [reflexivity|discriminate]).
+      destruct (tag_header data pos) as [[t hl]| | |]; try discriminate;
+        [|rewrite tbind_lift_err; apply gp_err; cbn [Nat.add]; lia].
+      rewrite tbind_val.
       destruct (R _ _ eq_refl) as [Hh _].
-      destruct (Nat.ltb_spec (length data) (pos + hl)); cbn [bind]; [split; [reflexivity|discriminate]|].
-      destruct (IHn (S depth) (pos + hl)%nat) as [P R'].
-      apply (wrap_ok pos hl _ (fun k => [k])); [lia|exact P|]. intros ks e E. specialize (R' ks e E). lia. }
+      destruct (Nat.ltb_spec (length data) (pos + hl)); [rewrite tbind_lift_err; apply gp_err; cbn [Nat.add]; lia|].
+      rewrite tbind_val.
+      apply (close_ok pos hl true); [lia|unfold L; lia|]. eapply gp_fu; [|apply IHn]. unfold L in *. lia. }
     split; [exact Hnode|]. split.
-    - intros depth pos k Hp. rewrite diag_count_S. destruct (k =? 0); [split; [reflexivity|intros ks e [= _ <-]; lia]|].
-      destruct (IHn depth pos) as [P R].
-      destruct (diag_node ok f data depth pos) as [[kid p1]| | |]; cbn [bind]; try discriminate; try (split; [reflexivity|discriminate]).
-      specialize (R _ _ eq_refl). destruct (IHc depth p1 (k - 1)) as [P2 R2]; [lia|].
-      destruct (diag_count ok f data depth p1 (k - 1)) as [[kids e]| | |]; cbn [bind]; try discriminate; try (split; [reflexivity|discriminate]).
-      specialize (R2 _ _ eq_refl). split; [reflexivity|]. intros ks e' [= _ <-]. lia.
+    - intros depth pos k Hp. rewrite diag_count_S.
+      destruct (k =? 0).
+      { unfold tlift, GP. cbn [fst snd]. split; [reflexivity|]. split; [|split; [lia|reflexivity]].
+        intros x e [= _ <-]. lia. }
+      destruct (IHn depth pos) as (N1 & N2 & N3 & N4).
+      destruct (diag_node ok f data depth pos) as [[[kid p1]| | |] t1]; cbn [fst snd] in *; try discriminate.
+      2:{ rewrite tbind_err. apply gp_err. lia. }
+      2:{ rewrite tbind_oof. unfold GP. cbn [fst snd]. split; [reflexivity|]. split; [discriminate|]. split; [lia|].
+          intros Hf. apply N4. lia. }
+      rewrite tbind_val_t.
+      destruct (N2 kid p1 eq_refl) as [[Ha Hb] Hc].
+      destruct (IHc depth p1 (k - 1) Hb) as (C1 & C2 & C3 & C4).
+      destruct (diag_count ok f data depth p1 (k - 1)) as [[[kids e]| | |] t2]; cbn [fst snd] in *; try discriminate.
+      + rewrite tbind_val_t. destruct (C2 kids e eq_refl) as [[Hd He] Hg]. unfold tlift, GP. cbn [fst snd].
+        split; [reflexivity|]. split; [|split; [lia|reflexivity]].
+        intros x e' [= _ <-]. lia.
+      + rewrite tbind_err. unfold GP. cbn [fst snd]. split; [reflexivity|]. split; [discriminate|]. split; [lia|reflexivity].
+      + rewrite tbind_oof. unfold GP. cbn [fst snd]. split; [reflexivity|]. split; [discriminate|]. split; [lia|].
+        intros Hf. apply C4. lia.
     - intros depth pos per chunk. rewrite diag_indef_S.
-      destruct (Nat.leb_spec (length data) pos) as [Lp|Lp]; [split; [reflexivity|discriminate]|].
-      destruct (idx_lt data pos Lp) as (b & ->). cbn [bind].
+      destruct (Nat.leb_spec (length data) pos) as [Lp|Lp]; [apply gp_err; lia|].
+      destruct (idx_lt data pos Lp) as (b & ->). rewrite tbind_val.
       destruct (b =? 255).
-      { destruct (Nat.ltb_spec (length data) (pos + 1)); [split; [reflexivity|discriminate]|].
-        split; [reflexivity|]. intros ks e [= _ <-]. unfold L. lia. }
-      destruct (IHn depth pos) as [P R].
-      destruct (diag_node ok f data depth pos) as [[k1 p1]| | |]; cbn [bind]; try discriminate; try (split; [reflexivity|discriminate]).
-      specialize (R _ _ eq_refl).
-      destruct (negb (chunk =? 0) && (negb (N.land b 224 =? chunk) || (N.land b 31 =? 31))); cbn [bind]; [split; [reflexivity|discriminate]|].
-      assert (SECOND : exists r1, (if Nat.eqb per 2 then r' <- diag_node ok f data depth p1 ;; (let '(k2, p2) := r' in Val ([k1; k2], p2)) else Val ([k1], p1)) = r1 /\
-                 panics r1 = false /\ forall ks p2, r1 = Val (ks, p2) -> (p1 <= p2 <= L)%nat).
-      { eexists. split; [reflexivity|]. destruct (Nat.eqb per 2); [|split; [reflexivity|intros ks p2 [= _ <-]; lia]].
-        destruct (IHn depth p1) as [P' R'].
-        destruct (diag_node ok f data depth p1) as [[k2 p2]| | |]; cbn [bind]; try discriminate; try (split; [reflexivity|discriminate]).
-        specialize (R' _ _ eq_refl). split; [reflexivity|]. intros ks p2' [= _ <-]. lia. }
-      destruct SECOND as (r1 & -> & P1 & R1).
-      destruct r1 as [[ks p2]| | |]; cbn [bind]; try discriminate; try (split; [reflexivity|discriminate]).
-      specialize (R1 _ _ eq_refl).
-      destruct (IHi depth p2 per chunk) as [P3 R3].
-      destruct (diag_indef ok f data depth p2 per chunk) as [[kids e]| | |]; cbn [bind]; try discriminate; try (split; [reflexivity|discriminate]).
-      specialize (R3 _ _ eq_refl). split; [reflexivity|]. intros ks' e' [= _ <-]. lia.
+      { destruct (Nat.ltb_spec (length data) (pos + 1)); [apply gp_err; lia|].
+        unfold tlift, GP. cbn [fst snd]. split; [reflexivity|]. split; [|split; [lia|reflexivity]].
+        intros x e [= _ <-]. unfold L. lia. }
+      destruct (IHn depth pos) as (N1 & N2 & N3 & N4).
+      destruct (diag_node ok f data depth pos) as [[[k1 p1]| | |] t1]; cbn [fst snd] in *; try discriminate.
+      2:{ rewrite tbind_err. apply gp_err. lia. }
+      2:{ rewrite tbind_oof. unfold GP. cbn [fst snd]. split; [reflexivity|]. split; [discriminate|]. split; [lia|].
+          intros Hf. apply N4. lia. }
+      rewrite tbind_val_t.
+      destruct (N2 k1 p1 eq_refl) as [[Ha Hb] Hc].
+      destruct (negb (chunk =? 0) && (negb (N.land b 224 =? chunk) || (N.land b 31 =? 31))).
+      { rewrite tbind_lift_err. unfold GP. cbn [fst snd]. split; [reflexivity|]. split; [discriminate|]. split; [lia|reflexivity]. }
+      rewrite tbind_val.
+      (* the second child of a map entry *)
+      set (second := if Nat.eqb per 2 then
+                       r' <~ diag_node ok f data depth p1 ;; (let '(k2, p2) := r' in tlift (Val ([k1; k2], p2)))
+                     else tlift (Val ([k1], p1))).
+      assert (SEC : GP p1 false 0 (2 * (L - p1) + 1 <= f)%nat second).
+      { unfold second. destruct (Nat.eqb per 2).
+        - destruct (IHn depth p1) as (M1 & M2 & M3 & M4).
+          destruct (diag_node ok f data depth p1) as [[[k2 p2]| | |] t2]; cbn [fst snd] in *; try discriminate.
+          + rewrite tbind_val_t. destruct (M2 k2 p2 eq_refl) as [[Hd He] Hg]. unfold tlift, GP. cbn [fst snd].
+            split; [reflexivity|]. split; [|split; [lia|reflexivity]].
+            intros x e' [= _ <-]. lia.
+          + rewrite tbind_err. apply gp_err. lia.
+          + rewrite tbind_oof. unfold GP. cbn [fst snd]. split; [reflexivity|]. split; [discriminate|]. split; [lia|exact M4].
+        - unfold tlift, GP. cbn [fst snd]. split; [reflexivity|]. split; [|split; [lia|reflexivity]].
+          intros x e' [= _ <-]. lia. }
+      destruct SEC as (S1 & S2 & S3 & S4).
+      destruct second as [[[ks p2]| | |] t2]; cbn [fst snd] in *; try discriminate.
+      2:{ rewrite tbind_err. unfold GP. cbn [fst snd]. split; [reflexivity|]. split; [discriminate|]. split; [lia|reflexivity]. }
+      2:{ rewrite tbind_oof. unfold GP. cbn [fst snd]. split; [reflexivity|]. split; [discriminate|]. split; [lia|].
+          intros Hf. apply S4. lia. }
+      rewrite tbind_val_t. cbn [fst snd].
+      destruct (S2 ks p2 eq_refl) as [[Hd He] Hg].
+      destruct (IHi depth p2 per chunk) as (I1 & I2 & I3 & I4).
+      destruct (diag_indef ok f data depth p2 per chunk) as [[[kids e]| | |] t3]; cbn [fst snd] in *; try discriminate.
+      + rewrite tbind_val_t. destruct (I2 kids e eq_refl) as [[Hh Hi] Hj]. unfold tlift, GP. cbn [fst snd].
+        split; [reflexivity|]. split; [|split; [lia|reflexivity]].
+        intros x e' [= _ <-]. lia.
+      + rewrite tbind_err. unfold GP. cbn [fst snd]. split; [reflexivity|]. split; [discriminate|]. split; [lia|reflexivity].
+      + rewrite tbind_oof. unfold GP. cbn [fst snd]. split; [reflexivity|]. split; [discriminate|]. split; [lia|].
+        intros Hf. apply I4. lia.
   Qed.
 
-  Lemma parse_diagnostic_no_panic fuel : panics (parse_diagnostic ok fuel data) = false.
+  Lemma parse_diagnostic_spec fuel :
+    panics (fst (parse_diagnostic ok fuel data)) = false /\
+    (snd (parse_diagnostic ok fuel data) <= L + 1)%nat /\
+    ((2 * L + 1 <= fuel)%nat -> oof (fst (parse_diagnostic ok fuel data)) = false).
   Proof.
-    unfold parse_diagnostic. destruct (diag_all fuel) as (Hn & _ & _). destruct (Hn 0%nat 0%nat) as [P _].
-    destruct (diag_node ok fuel data 0 0) as [[n e]| | |]; cbn [bind]; try discriminate; try reflexivity.
-    destruct (Nat.ltb e (length data)); reflexivity.
+    unfold parse_diagnostic. destruct (diag_all fuel) as (Hn & _ & _). destruct (Hn 0%nat 0%nat) as (P1 & P2 & P3 & P4).
+    destruct (diag_node ok fuel data 0 0) as [[[n e]| | |] t]; unfold tbind; cbn [fst snd] in *; try discriminate.
+    - unfold tlift. destruct (Nat.ltb e (length data)); cbn; repeat split; auto; lia.
+    - cbn. repeat split; auto; lia.
+    - cbn. repeat split; auto; [lia|]. intros Hf. apply P4. lia.
   Qed.
 End diag.
